@@ -152,6 +152,10 @@ def main(tier, seed):
     tot = {"states": 0, "transitions": 0}
     runs = []
     plans.append(dict(max_cmds=12 if tier == "quick" else 14, max_edits=0, long=True))
+    # the UTC stamp in the manifest name must not depend on the zone the tool runs in (far from UTC, and a half-hour zone)
+    plans.append(dict(max_cmds=2 if tier == "quick" else 3, max_edits=1, tz="Pacific/Kiritimati"))
+    if tier != "quick":
+        plans.append(dict(max_cmds=3, max_edits=0, tz="America/St_Johns"))
     for pl in plans:
         meta = dict(alpha="c06", oracles=["c06"], cmds=0, edits=0, **pl)
         inits = [(dict(BASE), meta, "base"), ({}, meta, "empty-folder")]
@@ -167,7 +171,7 @@ def main(tier, seed):
            "rule": "(plus one long-history plan: 12-14 consecutive generations in a root and a nested history, -sf and child runs "
                    "interleaved at steps 3/9/10, so that generation numbers pass 9 -> 10) BFS from a bare tree (and an empty folder): create with two format sets, create -sf (root and nested file), "
                    "create in two nested roots, delete/alter/add edits that make later runs exit 10/11; clock +10 s per "
-                   "command and frozen clock; after every create: old manifests byte-identical, exactly one new manifest per "
+                   "command and frozen clock; a plan run in the zones UTC+14 (thorough: also UTC-3:30); after every create: old manifests byte-identical, exactly one new manifest per "
                    "changed ascmhl folder numbered max+1 with the NNNN_<folder>_<UTC>Z.mhl name, chain = old entries + one "
                    "entry matching the new file's bytes, tool's loader yields 1..n"}
     return eng.finish(cov, eval_case)
